@@ -200,7 +200,7 @@ impl Prop for C20 {
         vec!["proposed wrong ids are lower case and contain 'zq' / start with 'qx', which no generated name can produce".into()]
     }
 
-    fn random_cases(&self, tier: Tier) -> u64 { tier.pick(300_000, 20_000_000) }
+    fn random_cases(&self, tier: Tier) -> u64 { tier.pick(300_000, 12_000_000) }
 
     fn strategy(&self, _tier: Tier) -> BoxedStrategy<Case> {
         let mutation = (0u8 .. 12, any::<u16>(), prop_oneof![4 => proptest::char::range('a', 'z'), 2 => proptest::char::range('0', '9'), 1 => proptest::char::range('A', 'Z'), 1 => Just('-'), 1 => Just('_'), 1 => Just(' ')]);
